@@ -89,7 +89,7 @@ HARNESSES["dbg_oob"] = H("dbg", ["C99"], tier="quick", cap=300, sym="debug", bou
 # ---------------------------------------------------------------- C13: malformed arguments
 _shape_sym = "shapes: number of input/output slices in [0,3], each slice length in [0, required+1], mask None or Some of length in [0,4] with symbolic entries"
 def _c13(name, bounds, sym=_shape_sym, stubs=(), cap=480, tier="quick", witness=False):
-    HARNESSES[name] = H("c13", ["C13"], tier=tier, cap=cap, sym=sym, bounds=bounds, stubs=stubs, untagged="C13", witness=witness, mem=10)
+    HARNESSES[name] = H("c13", ["C13"], tier=tier, cap=cap, sym=sym, bounds=bounds, stubs=stubs, untagged="C13", witness=witness, mem=6)
 _c13("c13_shape_ffo", "FastFixedOut<f64> Nearest chunk 2, 2 channels, fresh; process_into_buffer; then a valid call compared with a twin")
 _c13("c13_shape_ffi", "FastFixedIn<f32> Linear chunk 2, 2 channels, fresh; process_into_buffer; then a valid call compared with a twin")
 _c13("c13_shape_sfo", "SincFixedOut<f64>+Probe(2,1) chunk 2, 2 channels; process_into_buffer; twin")
@@ -119,7 +119,7 @@ _c09_b = ("set_resample_ratio argument and set_resample_ratio_relative argument:
 def _c09(name, typ, part, stubs=(), cap=480, witness=False):
     sym, sec = (_c09_a if part == "a" else _c09_b)
     HARNESSES[name] = H("c09", ["C09"], cap=cap, sym=sym, bounds=typ + "; " + sec,
-                        stubs=ALLOC_STUBS + list(stubs), untagged="C09", witness=witness, mem=8)
+                        stubs=ALLOC_STUBS + list(stubs), untagged="C09", witness=witness, mem=6)
 for nm, typ, st in (("ffo", "FastFixedOut<f64> Linear chunk 2, 2 ch, max_rel 2", ()),
                     ("ffi", "FastFixedIn<f32> Nearest chunk 2, 2 ch, max_rel 2", ()),
                     ("sfo", "SincFixedOut<f64>+Probe(2,2) Linear chunk 2, 2 ch", ()),
@@ -139,7 +139,7 @@ HARNESSES["c09_witness"] = H("c09", ["C09"], witness=True, cap=300, untagged="C0
 # ---------------------------------------------------------------- C10: reset == fresh (also C03: untagged checks after reset)
 _c10_sym_thorough = "pre-reset history: ratio change with every accepted f64 (D_full; FixedIn: k/32 grid), ramp bool, mask entry, optional pending relative ramp, a failed call; post-reset calls compared with a fresh twin"
 def _c10(name, bounds, sym, stubs=(), cap=600, witness=False, tier="quick"):
-    HARNESSES[name] = H("c10", ["C10", "C03"], cap=cap, sym=sym, bounds=bounds, stubs=stubs, untagged="C03", witness=witness, mem=8, tier=tier)
+    HARNESSES[name] = H("c10", ["C10", "C03"], cap=cap, sym=sym, bounds=bounds, stubs=stubs, untagged="C03", witness=witness, mem=(7 if stubs else 6), tier=tier)
 _conc = "none in the history (concrete: constant-folds); the solver decides every memory-safety/overflow check on the path and the equalities against the fresh twin"
 _c10("c10_ffo_lowered", "FastFixedOut<f64> Linear chunk 2, 1 ch, max_rel 2; history: ratio 0.5 stepped, 1 masked call; reset; getters + 3 calls vs fresh twin", _conc)
 _c10("c10_ffo_ramp_pending", "FastFixedOut<f32> Cubic chunk 2, 1 ch; history: ratio 1.75 ramped, 2 calls, pending relative ramp 1.25, failed call; reset; 3 calls vs twin", _conc)
@@ -160,3 +160,74 @@ _c10("c10_ffo_sym", "FastFixedOut<f64> Linear chunk 2, 2 ch; symbolic history; r
 _c10("c10_ffi_sym", "FastFixedIn<f64> Linear chunk 3, 2 ch; symbolic history; reset; 3 calls vs twin", _c10_sym_thorough, tier="thorough", cap=3600)
 _c10("c10_sfo_sym", "SincFixedOut<f64>+Probe(4,2) chunk 3, 2 ch; set_chunk_size(1), symbolic history; reset; 2 calls vs twin", _c10_sym_thorough, tier="thorough", cap=3600)
 _c10("c10_witness", "no reset before the comparison: must FAIL (vacuity witness)", "none", witness=True)
+
+# ---------------------------------------------------------------- C16: wrappers == core call
+def _c16(name, bounds, sym, stubs=(), cap=600, witness=False, tier="quick", mod="c16"):
+    HARNESSES[name] = H(mod, ["C16"], cap=cap, sym=sym, bounds=bounds, stubs=stubs, untagged="C16", witness=witness, mem=6, tier=tier)
+_pv = "mask: None or Some([m0,m1]) symbolic; inactive channels are passed empty input slices"
+_c16("c16_process_ffo", "FastFixedOut<f64> Linear chunk 2, 2 ch, fresh; process() vs process_into_buffer() on a twin, index-signal input", _pv)
+_c16("c16_process_sfi", "SincFixedIn<f64>+Probe(2,1) Nearest chunk 6, 2 ch (estimate larger than written count: truncation)", _pv)
+_c16("c16_process_ftio", "FftFixedInOut<f64> 2->3 chunk 2, 2 ch", _pv, stubs=FFT_STUBS)
+_pp = "partial lengths l0 in [1,next), l1 in [0,next) independent; mask None/Some([true,m1]); masked channel may be empty"
+_c16("c16_partial_ffo", "FastFixedOut<f64> Linear chunk 2, 2 ch; process_partial_into_buffer(Some) vs zero-padded process_into_buffer on a twin", _pp)
+_c16("c16_partial_sfi", "SincFixedIn<f64>+Probe(2,1) chunk 6, 2 ch; as above", _pp)
+_c16("c16_partial_fto", "FftFixedOut<f64> 2->3 chunk 3, 2 ch; as above", _pp, stubs=FFT_STUBS)
+_c16("c16_none_ffo", "FastFixedOut<f64> Linear chunk 2, 1 ch; one call of audio, then process_partial_into_buffer(None) x2 vs all-zero chunks on a twin", "none (concrete)")
+_c16("c16_none_fti", "FftFixedIn<f64> 2->3 chunk 3, 1 ch; one call, then None x2 vs zero chunks", "none (concrete)", stubs=FFT_STUBS)
+_c16("c16_partial_alloc_ffo", "FastFixedOut<f64> chunk 2, 1 ch; process_partial(Some|None) vs process_partial_into_buffer on a twin", "Some/None; partial length in [1,5]")
+_c16("c16_vec_setters_getters", "Box<dyn VecResampler<f64>> over FastFixedOut (orig 0.75, max 2) vs the concrete type through Resampler::", "setter argument: every f64; ramp; absolute/relative", mod="c16v")
+_c16("c16_vec_calls", "Box<dyn VecResampler<f64>> over FastFixedOut chunk 2: process_into_buffer / process / process_partial_into_buffer(Some) / process_partial(None) vs the concrete type", "which method (symbolic selector)", mod="c16v")
+_c16("c16_witness", "twin of a different degree: must FAIL (vacuity witness)", _pp, witness=True)
+
+# ---------------------------------------------------------------- C11: channel independence and masks
+def _c11(name, bounds, sym, stubs=(), cap=600, witness=False, tier="quick"):
+    HARNESSES[name] = H("c11", ["C11"], cap=cap, sym=sym, bounds=bounds, stubs=stubs, untagged="C11", witness=witness, mem=6, tier=tier)
+_m = "mask None or Some([m0,m1]) symbolic (all-false included; inactive channels passed EMPTY slices)"
+_c11("c11_ffo_sym", "FastFixedOut<f64> Nearest chunk 6: one 2-channel instance vs two 1-channel twins, 1 call", _m + "; sample data: every finite f32 value per sample (copy-only kernel)")
+_c11("c11_ffo_linear_line", "FastFixedOut<f32> Linear chunk 5 ratio 0.75: 2-channel vs two 1-channel twins, 1 call, two distinct index lines", _m)
+_c11("c11_sfo_sym", "SincFixedOut<f64>+Probe(2,1) Nearest chunk 4: 2-channel vs 1-channel twins, 1 call", _m + "; symbolic finite samples")
+_c11("c11_sfi_sym", "SincFixedIn<f64>+Probe(2,1) Nearest chunk 6: 2-channel vs twins, 1 call", _m + "; symbolic finite samples")
+_c11("c11_ffi_line", "FastFixedIn<f64> Linear chunk 12: 2-channel vs twins, 1 call, index lines", _m)
+_c11("c11_ftio_sym", "FftFixedInOut<f64> 2->3 chunk 2: 2-channel vs twins, 2 calls (overlap buffers per channel)", _m + "; symbolic finite samples in call 1", stubs=FFT_STUBS)
+_c11("c11_fto_line", "FftFixedOut<f64> 2->3 chunk 4: 2-channel vs twins, 1 call", _m, stubs=FFT_STUBS)
+_c11("c11_fti_line", "FftFixedIn<f64> 2->3 chunk 4: 2-channel vs twins, 1 call", _m, stubs=FFT_STUBS)
+_c11("c11_witness", "twins swapped: must FAIL (vacuity witness)", _m, witness=True)
+
+# ---------------------------------------------------------------- C17: f32 / f64 twins
+def _c17(name, bounds, sym, stubs=(), cap=600, witness=False, tier="quick"):
+    HARNESSES[name] = H("c17", ["C17"], cap=cap, sym=sym, bounds=bounds, stubs=stubs, untagged="C17", witness=witness, mem=6, tier=tier)
+_c17("c17_ffo", "FastFixedOut<f32> vs <f64> Nearest chunk 2, max_rel 2: getters, setter result, 1 call: counts equal, out32 == (out64 as f32)", "ratio: every accepted f64 (D_full); ramp")
+_c17("c17_sfo", "SincFixedOut<f32> vs <f64> +Probe(8,1) Nearest chunk 2: as above", "ratio: every accepted f64 (D_full); ramp")
+_c17("c17_ffi", "FastFixedIn<f32> vs <f64> Nearest chunk 2, 4 concrete warm-up calls, then setter + 1 call", "ratio k/32 (D_grid); ramp")
+_c17("c17_sfi", "SincFixedIn<f32> vs <f64> +Probe(8,1) Nearest chunk 2, 4 warm-up calls, setter + 1 call", "ratio k/32 (D_grid); ramp")
+_c17("c17_fft", "FftFixedOut 2->3 chunk 4 and FftFixedIn 3->2 chunk 4, f32 vs f64, 3 calls each: getters, counts, copy-kernel values", "none (no adjustable parameter)", stubs=FFT_STUBS)
+_c17("c17_witness", "different chunk sizes: must FAIL (vacuity witness)", "none", witness=True)
+
+# ---------------------------------------------------------------- C06 / C07 / C14 / C08(b): instants (index-signal observation)
+def _c06(name, props, bounds, sym, cap=900, witness=False, tier="quick"):
+    HARNESSES[name] = H("c06", props, cap=cap, sym=sym, bounds=bounds, untagged="C03", witness=witness, mem=6, tier=tier, thorough_cap=5400)
+_c06("c06_ffo_change_grid", ["C06", "C03"], "FastFixedOut<f64> Linear chunk 3, max_rel 2; 1 concrete warm-up call at ratio 1; then setter + 1 call; every output is the evaluation instant",
+     "new ratio: k/32 (D_grid); ramp bool")
+_c06("c06_sfo_change_grid", ["C06", "C03"], "SincFixedOut<f64>+Probe(8,2) Linear chunk 3, max_rel 2; 1 warm-up call; setter + 1 call; probe asserts every window lies on supplied line data",
+     "new ratio: k/32 (D_grid); ramp bool")
+_c06("c06_ffo_change", ["C06", "C03"], "FastFixedOut<f64> Linear chunk 3, max_rel 2; 2 concrete warm-up calls at ratio 1; then setter + 1 call; every output is the evaluation instant",
+     "new ratio: every accepted f64 (D_full); ramp bool", tier="thorough")
+_c06("c06_sfo_change", ["C06", "C03"], "SincFixedOut<f64>+Probe(8,2) Linear chunk 3, max_rel 2; 2 warm-up calls; setter + 1 call; probe asserts every window lies on supplied line data",
+     "new ratio: every accepted f64 (D_full); ramp bool", tier="thorough")
+_c06("c07_ffo_steady", ["C07", "C14", "C08", "C03"], "FastFixedOut<f64> Linear chunk 3: ratio set once then held; 2 calls from the fresh state: start position -4+(j+1)/r, uniform spacing across the chunk boundary, lag bound, output_delay",
+     "ratio: every accepted f64 in [0.5, 2] (D_full)")
+_c06("c06_witness", ["C06", "C07", "C14", "C08"], "must FAIL (vacuity witness)", "none", witness=True)
+
+for _n, _it, _rg in (("c03_sfo_os1_cubic", "Cubic", "oversampling_1"), ("c03_sfo_os1_quadratic", "Quadratic", "oversampling_1"), ("c03_sfo_os1_linear", "Linear", "base")):
+    HARNESSES[_n] = H("c03", ["C03", "C04"], cap=600, sym="new ratio k/32 (D_grid); ramp; surplus lengths",
+        bounds="SincFixedOut<f64>+Probe(8,1) %s, ONE sub-filter (oversampling factor 1), chunk 2, fresh state, setter + 1 call; region [%s]" % (_it, _rg))
+
+# ---------------------------------------------------------------- C03 / C04 / C07: synchronous resamplers (fft_step family)
+_FFT_ROWS = [('fto_2_3_6_2', 'FftFixedOut', '2, 3, 6, 2, 1', 3), ('fto_2_3_4_1', 'FftFixedOut', '2, 3, 4, 1, 1', 3), ('fto_3_2_3_1', 'FftFixedOut', '3, 2, 3, 1, 1', 3), ('fti_2_3_3_1', 'FftFixedIn', '2, 3, 3, 1, 1', 3), ('fti_2_3_1_1', 'FftFixedIn', '2, 3, 1, 1, 1', 4), ('fti_3_2_4_2', 'FftFixedIn', '3, 2, 4, 2, 1', 3), ('ftio_2_3_2', 'FftFixedInOut', '2, 3, 2, 1', 2), ('ftio_3_2_4', 'FftFixedInOut', '3, 2, 4, 1', 2)]
+for (_n, _typ, _args, _calls) in _FFT_ROWS:
+    HARNESSES["c07_" + _n] = H("c07f", ["C07", "C04", "C03"], cap=600, mem=7, stubs=FFT_STUBS,
+        sym="caller buffer surplus lengths in [0,1] (no adjustable parameter exists on synchronous types)",
+        bounds="%s::<f64>::new(%s), %d calls from the fresh state; index-signal input, sentinel output; stub FFT: block bookkeeping only" % (_typ, _args, _calls))
+HARNESSES["c07_ftio_sizing"] = H("c07f", ["C07", "C04"], cap=600, mem=7, stubs=FFT_STUBS, sym="none",
+    bounds="FftFixedInOut::new for 6 concrete (rate_in, rate_out, chunk) triples: in*rate_out == out*rate_in, in >= chunk and smallest")
+HARNESSES["c07_fft_witness"] = H("c07f", ["C07", "C04"], cap=300, mem=7, stubs=FFT_STUBS, sym="none", bounds="must FAIL (vacuity witness)", witness=True)
